@@ -15,12 +15,22 @@ theorem C01_loginresp_refuted : binaryOK ("smgp30.LoginResp", "AuthenticatorServ
 /-- for the two SMGP types the items still align, with the message id as the only non-inverse
     pair; the checker rejects them exactly for that reason -/
 theorem C01_smgp_msgid_refuted :
-    (Gen.allPdus.filter (fun p => exceptions.contains p.name)).all
+    (Gen.allPdus.filter (fun p => ["smgp30.Deliver", "smgp30.SubmitResp"].contains p.name)).all
       (fun p => !p.checkRoundTrip &&
         match p.items with
         | some (_, its) => its.any (fun | .fixedHexOut "MsgID" 10 => true | _ => false)
         | none => false) = true := by decide
 
+/-- the two SMPP response types are outside the reflective theorem only because their decoder has the
+    conditional stop (`stopIfAbsent`): with the stop filtered out the items align and invert -/
+theorem C01_smpp_conditional_refuted :
+    (Gen.allPdus.filter (fun p => ["smpp34.BindResp", "smpp34.SubmitSmResp"].contains p.name)).all
+      (fun p => !p.checkRoundTrip && p.dec.any DecOp.isStop &&
+        ({ p with dec := p.dec.filter (fun d => !d.isStop) } : PduDesc).checkRoundTrip) = true := by decide
+
+/-- the four names are all there is in the exception list -/
+theorem C01_exceptions_accounted :
+    exceptions = ["smgp30.Deliver", "smgp30.SubmitResp"] ++ ["smpp34.BindResp", "smpp34.SubmitSmResp"] := by decide
 
 end SmsVerif.C01
 
@@ -28,4 +38,6 @@ section
 open SmsVerif.C01
 #print axioms C01_loginresp_refuted
 #print axioms C01_smgp_msgid_refuted
+#print axioms C01_smpp_conditional_refuted
+#print axioms C01_exceptions_accounted
 end
